@@ -216,7 +216,43 @@ const (
 	causeBackslash = "trailing-backslash-before-closing-quote"
 	causeURNScheme = "implicit-urn-scheme-unvalidated"
 	causeLowerKey  = "lowercased-key-outside-lexer-alphabet"
+	causeNonASCII  = "non-ascii-character-in-value-rewritten-or-read-as-syntax"
+	causeControl   = "control-character-in-value-breaks-the-escapes-of-other-characters"
 )
+
+// mapValues returns the tree with f applied to every condition value (changed: some value differs).
+func mapValues(t *node, f func(string) string) (out *node, changed bool) {
+	out = t.mapLeaves(func(l *node) *node {
+		if v := f(l.Val); v != l.Val {
+			changed = true
+			c := *l
+			c.Val = v
+			return &c
+		}
+		return l
+	})
+	return
+}
+
+// asciify is the third repair experiment: every non-ASCII rune of a value becomes "x" (same
+// length in runes, no look-alike left). stripControls the fourth: every control character "_".
+func asciify(v string) string {
+	return strings.Map(func(r rune) rune {
+		if r > 0x7e {
+			return 'x'
+		}
+		return r
+	}, v)
+}
+
+func stripControls(v string) string {
+	return strings.Map(func(r rune) rune {
+		if r < 0x20 || r == 0x7f {
+			return '_'
+		}
+		return r
+	}, v)
+}
 
 // diagnosis names the defect class behind a failing format→parse of a tree and carries a shrunk
 // witness for it.
@@ -269,6 +305,16 @@ func diagnose(c cfg, t *node, kind string) []diagnosis {
 	if padChanged && keyChanged {
 		if both, _, _ := rekey(padded); roundTrips(c, both) {
 			return []diagnosis{{causeBackslash, nil}, {keyCause(allWord), nil}}
+		}
+	}
+	for _, rp := range []struct {
+		cause string
+		f     func(string) string
+	}{{causeNonASCII, asciify}, {causeControl, stripControls}} {
+		rp := rp
+		repair := func(x *node) (*node, bool) { return mapValues(x, rp.f) }
+		if y, changed := repair(t); changed && roundTrips(c, y) {
+			return []diagnosis{{rp.cause, shrunk(repair)}}
 		}
 	}
 	// smallest failing sub-term: a single condition?
@@ -437,10 +483,13 @@ func firstFeature(v string) string {
 func (k *chk14) noteTree(prefix string, t *node) (multi, meta bool) {
 	ls := t.leaves()
 	multi = len(ls) >= 2
+	conf, ctl := false, false
 	for _, l := range ls {
 		if hasMeta(l.Val) {
 			meta = true
 		}
+		conf = conf || hasConfusable(l.Val)
+		ctl = ctl || hasControlMix(l.Val)
 		k.res.Seen("operators", l.Cmp)
 		k.res.Seen("property_types", l.PT)
 		if l.PT == "attr" {
@@ -462,6 +511,12 @@ func (k *chk14) noteTree(prefix string, t *node) (multi, meta bool) {
 	}
 	if t.depth() >= 2 {
 		k.res.Count(prefix+".nested", 1)
+	}
+	if conf {
+		k.res.Count(prefix+".confusable_value", 1)
+	}
+	if ctl {
+		k.res.Count(prefix+".control_mix_value", 1)
 	}
 	return
 }
@@ -762,6 +817,19 @@ func (k *chk14) checkInjection(c cfg, t template, v string) {
 			wit["shrunk_query"] = t.with(small)
 			return causeBackslash, fmt.Sprintf(" [shrunk value: %q]", small)
 		}
+		for _, rp := range []struct {
+			cause string
+			f     func(string) string
+		}{{causeNonASCII, asciify}, {causeControl, stripControls}} {
+			rp := rp
+			pred := func(val string) bool { return rp.f(val) != val && !holds(val) && holds(rp.f(val)) }
+			if pred(v) {
+				small := shrinkString(v, pred)
+				wit["shrunk_value"] = small
+				wit["shrunk_query"] = t.with(small)
+				return rp.cause, fmt.Sprintf(" [shrunk value: %q]", small)
+			}
+		}
 		return kind + "|unclassified:value-" + firstFeature(v), ""
 	}
 	if !pv.ok() {
@@ -790,6 +858,12 @@ func (k *chk14) checkInjection(c cfg, t template, v string) {
 	if hasMeta(v) {
 		k.res.Count("clause3.held.meta_value", 1)
 		k.nt = true
+	}
+	if hasConfusable(v) {
+		k.res.Count("clause3.held.confusable_value", 1)
+	}
+	if hasControlMix(v) {
+		k.res.Count("clause3.held.control_mix_value", 1)
 	}
 	if t.nparts >= 2 {
 		k.nt = true
